@@ -70,6 +70,7 @@ type hit struct {
 	Outcome string
 	At      time.Duration // since the endpoint was created
 	From    string
+	Detect  string // "detect" member of the notification (redefine.go)
 }
 
 type endpoint struct {
@@ -110,7 +111,11 @@ func (e *endpoint) handler(w http.ResponseWriter, req *http.Request) {
 		out = s[0]
 		e.scripts[hook] = s[1:]
 	}
-	e.log = append(e.log, hit{hook, msgN(body), out, time.Since(e.t0), req.RemoteAddr})
+	det := ""
+	if m := detectRe.FindSubmatch(body); m != nil {
+		det = string(m[1])
+	}
+	e.log = append(e.log, hit{hook, msgN(body), out, time.Since(e.t0), req.RemoteAddr, det})
 	if out == "ok" {
 		e.inflight++
 	}
@@ -1436,6 +1441,14 @@ func runC10(r *hx.Result, cfg hx.Config) {
 		x.outage("outage-retention-"+v, cfg.Seed, v == "long")
 		return
 	}
+	if v := os.Getenv("C10_REDEFINE"); v != "" { // development aid: only the re-definition histories
+		x.redefine("redefine-corpus", redefineCorpus())
+		k, _ := strconv.Atoi(v)
+		for i := 0; i < k; i++ {
+			x.redefine(fmt.Sprintf("redefine-%d", i), randomRedefine(rng))
+		}
+		return
+	}
 	// failing-input search: the long outage first (messages queued late in a 33 s outage and in a later one)
 	if cfg.Search {
 		x.outage("outage-retention-long", rng.Int63(), true)
@@ -1460,6 +1473,15 @@ func runC10(r *hx.Result, cfg hx.Config) {
 		x.restartWhileFailing(fmt.Sprintf("restart-while-failing-%d", i), rng.Int63(), 2+rng.Intn(2), 1+rng.Intn(2))
 	}
 	x.manyHooks(nh, nw)
+	// hooks / channels re-defined and deleted between the writes (redefine.go)
+	x.redefine("redefine-corpus", redefineCorpus())
+	nRedef := 3
+	if cfg.Tier == "thorough" || cfg.Search {
+		nRedef = 60
+	}
+	for i := 0; i < nRedef; i++ {
+		x.redefine(fmt.Sprintf("redefine-%d", i), randomRedefine(rng))
+	}
 	// retention of messages queued late in an outage and in a later outage (outage.go)
 	nOut := 1
 	if cfg.Tier == "thorough" || cfg.Search {
